@@ -39,7 +39,7 @@ package goja
 
 //@ func (*vm).pushTryFrame
 //@   props C03 C08
-//@   requires vm != nil && len(vm.callStack) <= math.MaxInt32 && len(vm.iterStack) <= math.MaxInt32 && len(vm.refStack) <= math.MaxInt32 && vm.sp >= 0 && vm.sp <= math.MaxInt32
+//@   requires vm != nil
 //@   ensures len(vm.tryStack) == old(len(vm.tryStack))+1 [one-more]
 //@   ensures vm.tryStack[len(vm.tryStack)-1].sp == int32(vm.sp) && vm.tryStack[len(vm.tryStack)-1].stash == vm.stash && vm.tryStack[len(vm.tryStack)-1].privEnv == vm.privEnv [snapshot-registers]
 //@   ensures int(vm.tryStack[len(vm.tryStack)-1].callStackLen) == len(vm.callStack) && int(vm.tryStack[len(vm.tryStack)-1].iterLen) == len(vm.iterStack) && int(vm.tryStack[len(vm.tryStack)-1].refLen) == len(vm.refStack) [snapshot-stack-heights]
@@ -55,6 +55,7 @@ package goja
 
 // The VM and its runtime are wired together once.
 //@ stable vm.r
+//@ typeinv *vm specVMWF
 
 // ---- unwinding
 
@@ -86,8 +87,18 @@ package goja
 //@   props C03 C08
 //@   maypanic
 //@   requires vm != nil
+//@   ensures len(vm.iterStack) == int(iterLen) && len(vm.refStack) == int(refLen) [heights]
+
+// With closeIters == false no script runs: the only call that can reach script (vm.try around the
+// iterator's return()) is not made.
+//@ func (*vm).unwindStacks
+//@   props C03 C08
+//@   maypanic
+//@   requires vm != nil
 //@   loop 1 invariant true [closing-iterators]
 //@   loop 2 invariant true [clearing-references]
+//@   site try#1 vars closeIters bool
+//@   site try#1 requires closeIters [script-only-when-closing]
 //@   ensures len(vm.iterStack) == int(iterLen) && len(vm.refStack) == int(refLen) [heights]
 
 // handleThrow: only JS-visible errors are ever delivered to a catch or finally; everything else
@@ -103,8 +114,8 @@ package goja
 //@   loop 1 invariant @markersKept [markers-kept]
 //@   loop 1 invariant @noNewMarkers [no-new-markers]
 //@   loop 1 invariant (specThrownKind(arg) == 0 ==> ex == nil) && (specThrownKind(arg) == 1 ==> ex != nil && same(ex.val, specThrownValue(arg))) && (specThrownKind(arg) == 2 ==> ex == specThrownException(arg)) [ex-classified]
-//@   site restoreStacks#1 vars ex *Exception, tf *tryFrame
-//@   site restoreStacks#1 requires ex != nil || len(vm.iterStack) <= int(tf.iterLen) [uncatchable-errors-close-no-iterator]
+//@   site unwindStacks#1 vars ex *Exception, arg3 bool
+//@   site unwindStacks#1 requires ex != nil || !arg3 [uncatchable-errors-close-no-iterator]
 //@   exitvars ex *Exception, tf *tryFrame
 //@   ensures specThrownKind(arg) != 0 [only-js-errors-are-delivered]
 //@   ensures result != nil ==> result == ex [unhandled-is-returned]
@@ -210,6 +221,6 @@ package goja
 // way out, returning or panicking, so that the enclosing region's handler finds its own marker.
 //@ func (*vm).try
 //@   props C03
-//@   requires vm != nil && vm.r != nil && len(vm.callStack) <= math.MaxInt32 && len(vm.iterStack) <= math.MaxInt32 && len(vm.refStack) <= math.MaxInt32 && vm.sp >= 0 && vm.sp <= math.MaxInt32
+//@   requires vm != nil
 //@   ensures len(vm.tryStack) == old(len(vm.tryStack)) [marker-popped]
 //@   ensures_abrupt len(vm.tryStack) == old(len(vm.tryStack)) [marker-popped-on-panic]
